@@ -319,6 +319,8 @@ def applyRefine (r : Refine) (p : Props) : Except Err Props := do
   let p ← match r.max with
     | none => pure p
     | some n => if p.kind == .leaflist || p.kind == .list then pure { p with max := n } else .error .fail
+  -- if-feature can be added to leaf, leaf-list, list, container, choice, case (not to an operation or its input / output)
+  if !r.iffs.isEmpty && (p.kind == .action || p.kind == .notif || p.kind == .input || p.kind == .output) then .error .fail else
   pure { p with iffs := p.iffs ++ r.iffs }
 
 def applyRefines : List Refine → Props → Except Err Props
